@@ -35,9 +35,12 @@ def plan(tier, seed, kf_ids):
         t, i, al, tg = c.ty(s, 16, f), c.inner(s, 16), c.alias(s, 16, f), c.tag(s, 16, f)
         for kind, tmpl, desc in (("display", "c09_display!(%s, %s, %s, %d);", "{}: correctly rounded digits, sign"),
                                  ("roundtrip", "c09_roundtrip!(%s, %s, %s, %d);", "FromStr({:?} output) == x through the real parser")):
+            if q and kind == "display":
+                continue
             name = "c09_%s_%s" % (kind, tg)
             jobs.append(Job(name, tmpl % (name, t, i, f), "for every value of %s: %s" % (al, desc), timeout=900, inst=al,
                             bounds="all 65536 values", mem_gb=20))
+            jobs[-1].prio = 9    # 4-6 min: decided last, when the run budget allows
     for k in kf_ids:
         jobs.append(Job("kfw_" + k, "", "witness of known finding %s (concrete operands)" % k, timeout=900, kf=k,
                         inst="witness", bounds="concrete operands"))
